@@ -301,7 +301,11 @@ class Configuration:
         except (exceptions.MissingSectionError, exceptions.MissingEntryError) as err:
             try:
                 return self.fallback_config.get(key=key, section=section)
-            except (exceptions.MissingConfigurationError, exceptions.MissingEntryError):
+            except (
+                exceptions.MissingConfigurationError,
+                exceptions.MissingEntryError,
+                exceptions.MissingSectionError,
+            ):
                 if default is None:
                     # Raise original error
                     raise err
